@@ -77,7 +77,7 @@ MANIFEST = dict(
     ref='5.4', technique='independent Go oracle (rules + replay) over players x configurations + Coq invariant proofs + model/implementation differential on legality, MCTS passes and the opening book',
     note="Partial on the proof side: Analyze's first move is proved legal on the executed model (larger boards under the side condition withinP: "
          "C01's 64-stack limit along the searched tree; the model's loops take the node's own move count as fuel, so no bound on the number of generated moves is assumed); GetMove's randomised choice and "
-         "AnalyzeAll are proved on the executed model Search.v + SearchRand.v (SearchRand.v is executed against the real GetMove on every run: CASE RAND lines, the random draws taken from the configured seed's source); whole-PV replay is proved for precise configurations without a table and covered by the oracle only otherwise; MCTS no-panic assumes evaluator totality and <= 64 pieces; "
+         "AnalyzeAll are proved on the executed model Search.v + SearchRand.v (SearchRand.v is executed against the real GetMove on every run: CASE RAND lines, the random draws taken from the configured seed's source); configurations with DedupSymmetry are covered too: the model SearchDedup.v (Search.v plus pvSearch's symmetry cache, equal to Search.v with the option off) is executed on CASE RAND lines carrying the option, and the first-move theorem is proved for it in every configuration (C04_dedup_analyze_first_move_legal; SearchDedupLegal.v); whole-PV replay is proved for precise configurations without a table and covered by the oracle only otherwise; MCTS no-panic assumes evaluator totality and <= 64 pieces; "
          "opening book: 'GetMove never panics' is proved for books below 2^28 words (C04_opening_book_get_move_no_panic; beyond it rand.Int31n's argument wraps, in the code as in the model); "
          "NoCollisionOn and reserves_match_board / opening_consistent of the queried position are explicit hypotheses (a position with "
          "non-default piece counts can share a book position's hash and squares without sharing its legal moves). Found and repaired through "
